@@ -59,11 +59,44 @@ pub fn any_board() -> Board {
         active_color: if white { Color::White } else { Color::Black },
         castling_ability: Castle::new(sym::bool(), sym::bool(), sym::bool(), sym::bool()),
         en_passant_target: if ep == 64 { None } else { Some(ep) },
-        halfmove_clock: sym::u8(),
-        fullmove_counter: sym::u8(),
+        halfmove_clock: sym::u8() as _,
+        fullmove_counter: sym::u8() as _,
     };
     vnote!("fen", "{}", fen_of(&from_board(&b)));
     b
+}
+/// A board built constructively: two kings and up to `extra` further men, each of symbolic kind
+/// (pawn..queen), colour and square (all squares distinct, pawns off the back ranks); side to move,
+/// rights and en-passant square arbitrary (not necessarily consistent with the placement).
+/// Straight-line code: needs no loop unwinding.
+pub fn small_board(extra: usize) -> Board { small_board_men(extra).0 }
+/// the same, also returning the list of men: (present, colour index, kind index, square); entries 0 and 1 are the kings
+pub fn small_board_men(extra: usize) -> (Board, [(bool, usize, usize, u8); 8]) {
+    let mut men = [(false, 0usize, 0usize, 0u8); 8];
+    let mut pc = [0u64; 6]; let mut col = [0u64; 2];
+    let wk = sym::u8(); let bk = sym::u8();
+    sym::assume(wk < 64 && bk < 64 && wk != bk);
+    pc[5] = bit(wk) | bit(bk); col[0] = bit(wk); col[1] = bit(bk);
+    men[0] = (true, 0, 5, wk); men[1] = (true, 1, 5, bk);
+    macro_rules! man { ($i:expr) => { if $i < extra {
+        if sym::bool() {
+            let t = sym::u8(); let s = sym::u8(); let w = sym::bool();
+            sym::assume(t < 5 && s < 64 && (col[0] | col[1]) & bit(s) == 0 && (t != 0 || (s >= 8 && s < 56)));
+            pc[t as usize] |= bit(s); col[if w { 0 } else { 1 }] |= bit(s);
+            men[2 + $i] = (true, if w { 0 } else { 1 }, t as usize, s);
+        }
+    } }; }
+    man!(0); man!(1); man!(2); man!(3); man!(4); man!(5);
+    let ep = sym::u8(); sym::assume(ep <= 64);
+    let b = Board {
+        position: position_from_raw(pc, col),
+        active_color: if sym::bool() { Color::White } else { Color::Black },
+        castling_ability: Castle::new(sym::bool(), sym::bool(), sym::bool(), sym::bool()),
+        en_passant_target: if ep == 64 { None } else { Some(ep) },
+        halfmove_clock: sym::u8() as _, fullmove_counter: sym::u8() as _,
+    };
+    vnote!("fen", "{}", fen_of(&from_board(&b)));
+    (b, men)
 }
 pub fn mirror_board(b: &Board) -> Board {
     let p = from_board(b);
